@@ -312,10 +312,16 @@ func PreExecBlock(client queue.Client, prevStateRoot []byte, block *types.Block,
 		unverifiedTxs := block.Txs
 		//区块中交易在mempool中已有存在情况，重新构造需要验签的交易列表
 		if replyData.ExistCount > 0 {
+			//mempool按交易哈希查重, 而交易哈希不包含签名, 需要确认区块中的签名与mempool中已验签交易的签名一致
+			pooledTxs, err := getPooledTxs(client, checkReq.TxHashes, replyData.ExistFlags)
+			if err != nil {
+				ulog.Error("PreExecBlock", "get mempool txs by hash err", err)
+				return nil, nil, err
+			}
 			unverifiedTxs = make([]*types.Transaction, 0, len(block.Txs)-int(replyData.ExistCount))
 			for index, exist := range replyData.ExistFlags {
-				//只需要对mempool中不存在的交易验签
-				if !exist {
+				//只需要对mempool中不存在, 或签名与mempool中不一致的交易验签
+				if !exist || !isSameSignature(pooledTxs[index], block.Txs[index]) {
 					unverifiedTxs = append(unverifiedTxs, block.Txs[index])
 				}
 			}
@@ -457,6 +463,48 @@ func PreExecBlock(client queue.Client, prevStateRoot []byte, block *types.Block,
 	}
 	detail.PrevStatusHash = prevStateRoot
 	return &detail, deltxs, nil
+}
+
+// getPooledTxs 获取mempool中已存在交易的原始内容, 返回列表与txHashes一一对应, 不存在的位置为nil
+func getPooledTxs(client queue.Client, txHashes [][]byte, existFlags []bool) ([]*types.Transaction, error) {
+	req := &types.ReqTxHashList{}
+	for index, exist := range existFlags {
+		if exist && index < len(txHashes) {
+			req.Hashes = append(req.Hashes, string(txHashes[index]))
+		}
+	}
+	msg := client.NewMessage("mempool", types.EventTxListByHash, req)
+	err := client.Send(msg, true)
+	if err != nil {
+		return nil, err
+	}
+	reply, err := client.Wait(msg)
+	if err != nil {
+		return nil, err
+	}
+	replyTxs, ok := reply.GetData().(*types.ReplyTxList)
+	if !ok {
+		return nil, types.ErrTypeAsset
+	}
+	pooledTxs := make([]*types.Transaction, len(existFlags))
+	next := 0
+	for index, exist := range existFlags {
+		if exist && index < len(txHashes) {
+			if next < len(replyTxs.GetTxs()) {
+				pooledTxs[index] = replyTxs.GetTxs()[next]
+			}
+			next++
+		}
+	}
+	return pooledTxs, nil
+}
+
+// isSameSignature mempool中的交易与区块中的交易签名是否完全一致
+func isSameSignature(pooled, tx *types.Transaction) bool {
+	if pooled == nil || tx == nil || pooled.GetSignature() == nil || tx.GetSignature() == nil {
+		return false
+	}
+	return bytes.Equal(types.Encode(pooled.GetSignature()), types.Encode(tx.GetSignature()))
 }
 
 // ExecBlockUpgrade : just exec block
